@@ -118,3 +118,102 @@ Definition names_status (st : list (Z * list Z)) (ext : list (Z * list (Z * list
                   end
       | None => true
       end).
+
+(* ---------------------------------------------------------------- Multiple Service Packet replies
+   (CIP Vol 1, Message Router service 0x0A).  The reply data of a connected reply starts at 50
+   (no additional status):  u16 number of replies, that many u16 offsets counted from the count
+   field, then the service replies; reply i spans from offset i to offset i+1, the last to the end.
+   Each service reply is itself a message-router response:
+      [0] reply service  [1] reserved  [2] general status  [3] additional-status size  [4..] *)
+Definition multi_base : nat := 50.
+Definition multi_count (raw : bytes) : option Z := u16_at multi_base raw.
+Definition multi_offset (raw : bytes) (i : nat) : option Z := u16_at (multi_base + 2 + 2 * i) raw.
+
+(* the status words of service reply [i]: present only if the count covers i, the offset entry
+   exists and the bytes it points at exist *)
+Definition multi_sub_words (raw : bytes) (i : nat) : option (Z * Z) :=
+  match multi_count raw, multi_offset raw i with
+  | Some n, Some o =>
+      if Z.of_nat i <? n then
+        match byte_at (multi_base + Z.to_nat o) raw, byte_at (multi_base + Z.to_nat o + 2) raw with
+        | Some s, Some g => Some (s, g)
+        | _, _ => None
+        end
+      else None
+  | _, _ => None
+  end.
+Definition sub_words_ok (w : Z * Z) : bool :=
+  let '(s, g) := w in (128 <=? s) && ((g =? 0) || ((g =? 6) && continues (s mod 128))).
+(* what "service i of this reply succeeded" can mean at most, for ALL byte strings *)
+Definition multi_sub_success (raw : bytes) (i : nat) : bool :=
+  match encap_status raw, multi_sub_words raw i with
+  | Some e, Some w => (e =? 0) && sub_words_ok w
+  | _, _ => false
+  end.
+
+(* the builder dual to the reader: reply data for the service replies [rs] *)
+Fixpoint multi_offsets (o : Z) (rs : list bytes) : bytes :=
+  match rs with
+  | [] => []
+  | r :: rest => le_enc 2 o ++ multi_offsets (o + Z.of_nat (length r)) rest
+  end.
+Definition multi_data (rs : list bytes) : bytes :=
+  le_enc 2 (Z.of_nat (length rs)) ++ multi_offsets (2 + 2 * Z.of_nat (length rs)) rs ++ concat rs.
+Definition multi_data_size (rs : list bytes) : Z :=
+  2 + 2 * Z.of_nat (length rs) + Z.of_nat (length (concat rs)).
+
+(* a service reply on its own (the [layout] of a sub-reply, for wf_cip_reply-like checks) *)
+Definition sub_success (d : bytes) : bool :=
+  match byte_at 0 d, byte_at 2 d with
+  | Some s, Some g => sub_words_ok (s, g)
+  | _, _ => false
+  end.
+Definition wf_sub_reply (d : bytes) : bool :=
+  match byte_at 0 d, byte_at 3 d with
+  | Some s, Some n => (128 <=? s) && (4 + 2 * n <=? Z.of_nat (length d))
+  | _, _ => false
+  end.
+Definition sub_ext_status (d : bytes) : option (Z * option Z) :=
+  match byte_at 3 d with
+  | Some 0 => Some (0, None)
+  | Some 1 => Some (1, u16_at 4 d)
+  | Some 2 => Some (2, u32_at 4 d)
+  | Some n => Some (n, None)
+  | None => None
+  end.
+
+(* strict reader of a well-formed multi-service reply: Some (service replies) *)
+Fixpoint read_offsets (n : nat) (i : nat) (raw : bytes) : option (list Z) :=
+  match n with
+  | O => Some []
+  | S n' => match multi_offset raw i, read_offsets n' (S i) raw with
+            | Some o, Some l => Some (o :: l)
+            | _, _ => None
+            end
+  end.
+Fixpoint offsets_sorted (lo hi : Z) (os : list Z) : bool :=
+  match os with
+  | [] => true
+  | o :: r => (lo <=? o) && (o <=? hi) && offsets_sorted o hi r
+  end.
+Fixpoint cut_at (data : bytes) (os : list Z) : list bytes :=
+  match os with
+  | [] => []
+  | [o] => [skipn (Z.to_nat o) data]
+  | o :: ((o' :: _) as r) => firstn (Z.to_nat o' - Z.to_nat o) (skipn (Z.to_nat o) data) :: cut_at data r
+  end.
+Definition read_multi (raw : bytes) : option (list bytes) :=
+  match encap_status raw, byte_at 46 raw, byte_at 49 raw, multi_count raw with
+  | Some _, Some 138, Some 0, Some n =>
+      if n =? 0 then None else
+      match read_offsets (Z.to_nat n) 0 raw with
+      | Some os =>
+          let data := skipn multi_base raw in
+          if offsets_sorted (2 + 2 * n) (Z.of_nat (length data)) os
+          then let subs := cut_at data os in
+               if forallb wf_sub_reply subs then Some subs else None
+          else None
+      | None => None
+      end
+  | _, _, _, _ => None
+  end.
